@@ -19,6 +19,22 @@ def effCbs : Eff → List (Side × Kind)
 
 def tag (j : Nat) (l : List (Side × Kind)) : List CbEntry := l.map (fun sk => (j, sk.1, sk.2))
 
+/-- the generated handler, applied to any value with any callback setting: callback (if set) with
+that very value, then a RecoveredPanicErr carrying that very value; `recover()` = nil gives nil -/
+theorem runHandler_total {α : Type} (cbSet : Bool) (v : α) :
+    runHandler cbSet (some v) =
+      { ret := .recovered (some v), cbs := if cbSet then [some v] else [] } := by
+  cases cbSet <;> rfl
+
+theorem runHandler_nil {α : Type} (cbSet : Bool) :
+    runHandler cbSet (none : Option α) = { ret := .nil, cbs := [] } := by
+  cases cbSet <;> rfl
+
+/-- so a recover frame turns a panic of the call (sd, k) into exactly the RecoveredPanicErr of that
+call and one callback -/
+theorem handled_eq (sd : Side) (k : Kind) : handled sd k = (.panicErr sd k, .cb sd k) := by
+  simp [handled, runHandler_total]
+
 theorem stepReq_safe {fr : Frames} {r : Req} (h : safeScript fr r.script) :
     (stepReq fr r).2 ≠ .crash ∧ safeScript fr (stepReq fr r).1.script := by
   unfold stepReq
@@ -33,7 +49,7 @@ theorem stepReq_safe {fr : Frames} {r : Req} (h : safeScript fr r.script) :
       · exact ⟨by simp, by intro c hc; cases hc⟩
       · rename_i hp
         have hfr : fr c.side c.kind = true := h c (by rw [hs]; exact List.mem_cons_self) hp
-        simp [hfr]
+        simp [hfr, handled_eq]
         intro c hc; cases hc
   · exact ⟨by simp, h⟩
 
@@ -197,7 +213,7 @@ theorem runReq_inject (fr : Frames) :
         subst hc
         have : stepReq fr { script := injectScript (d :: rest) 0, out := .running } =
             ({ script := [], out := .panicErr d.side d.kind }, .cb d.side d.kind) := by
-          simp [stepReq, injectScript, hf]
+          simp [stepReq, injectScript, hf, handled_eq]
         rw [this]
         simp [effCbs, runReq_done]
       | succ pos =>
